@@ -6,7 +6,7 @@
 From Coq Require Import List ZArith NArith String Bool.
 From SCC Require Import Base.Sexp Lang.FunSyn Lang.CoreSyn Lang.AxSyn Lang.AxSize Lang.FsSize Lang.CoreSize
      Model.Fun2Core Model.Focus Model.Shrink Model.SizeDefs Model.Linearize Model.Backend
-     Model.Uniquify Proof.Fun2CoreProof Proof.SizeLin Proof.SizeCodegen Proof.SizeShrink Proof.SizeFocus Proof.SizeGen Proof.SizeUniquify.
+     Model.Uniquify Proof.Fun2CoreProof Proof.SizeLin Proof.SizeCodegen Proof.SizeShrink Proof.SizeFocus Proof.SizeGen Proof.SizeUniquify Model.SizeFun Proof.SizeFun2CoreFv Proof.SizeFun2Core Proof.SizeFun2CoreProg.
 Import ListNotations.
 Open Scope N_scope.
 
@@ -197,3 +197,43 @@ Print Assumptions C19_uniquify_size.
 Theorem C19_focus_size : focus_size_statement 4.
 Proof. exact focus_prog_size_lemma. Qed.
 Print Assumptions C19_focus_size.
+
+(* ---------- round 2: Fun -> Core, whole programs, every term form ---------- *)
+(* the free-variable inclusion behind it (no fragment, no scoping hypothesis): the free bindings of the
+   translation of t against cont are typed variable occurrences of t (Model/SizeFun.v tocc) or free in
+   cont; compiler-generated names never escape.  Hence a shared continuation has at most
+   (distinct typed occurrences of the definition) + 2 parameters. *)
+Theorem C19_fun2core_free_vars : forall codata cur t cont st s st',
+  wc codata cur false t cont st = Fun2Core.Ok (s, st') -> cont_cns cont ->
+  forall b, In b (tfv_stmt s []) -> In b (tocc t) \/ In b (tfv_term cont []).
+Proof. exact occ_wc. Qed.
+Print Assumptions C19_fun2core_free_vars.
+
+(* one definition body: Q = 6 + (2 + k) * (|U| + 2) per source node, U any list containing the typed
+   occurrences; k = 0 node counts, k = 1 weighted sizes; `lz` = everything lifted so far *)
+Theorem C19_fun2core_wc_size : forall codata cur k U t cont st s st',
+  wc codata cur false t cont st = Fun2Core.Ok (s, st') -> cok U cont -> incl (tocc t) U ->
+  cz_stmt k s + lz k st' + 2 <= lz k st + fz k t * (6 + 2 * (len U + 2) + k * (len U + 2)) + cz_term k cont.
+Proof. exact sz_wc. Qed.
+Print Assumptions C19_fun2core_wc_size.
+
+(* whole programs, all definitions incl. the lifted share_* ones.  fun_occ p = the largest number of
+   DISTINCT typed variable occurrences (name, chirality, type) in one definition: for a type-checked
+   program at most the parameters and binders of the definition; always <= 2 * size.
+   Node counts: linear in size x (5 + occurrences);  weighted sizes (f_wprog counts the binders of
+   clauses and definitions, c_wprog the clause/definition contexts): the form the pipeline needs. *)
+Theorem C19_fun2core_size : forall p c, compile_prog p = Fun2Core.Ok c ->
+  size_cprog c <= size_fcprog p * (10 + 2 * fun_occ p) /\
+  c_wprog c <= f_wprog p * (12 + 3 * fun_occ p) /\
+  fun_occ p <= 2 * size_fcprog p.
+Proof.
+  intros p c H. split; [exact (fun2core_size_nodes p c H)|]. split; [exact (fun2core_size_weighted p c H)|].
+  exact (fun_occ_le_size p).
+Qed.
+Print Assumptions C19_fun2core_size.
+
+(* in the size alone: quadratic, for every program the translation accepts *)
+Theorem C19_fun2core_size_quadratic : forall p c, compile_prog p = Fun2Core.Ok c ->
+  size_cprog c <= size_fcprog p * (10 + 4 * size_fcprog p).
+Proof. exact fun2core_size_quadratic. Qed.
+Print Assumptions C19_fun2core_size_quadratic.
